@@ -25,6 +25,7 @@ inductive FieldKind where
   | loc            -- number (jump location), width O / L / max by mode
   | locO           -- as `loc`, but O in vn mode (jo, jcmpo: their vn case falls through to the default)
   | const (w : Nat) -- number, fixed width
+  | so (kind short : String)  -- shared-object name <short><k> (q0, st1, lfsr80 …), width Shared_bits(kind)
 deriving DecidableEq, Repr, Inhabited
 
 structure Arch where
@@ -37,6 +38,7 @@ structure Arch where
   mode : Mode := .ha
   wordSize : Nat := 0
   ops : List String       -- opcode names, in the machine's (name-sorted) order
+  shared : List (String × Nat) := []   -- Shared_constraints: number of shared objects of each kind
 deriving DecidableEq, Repr, Inhabited
 
 namespace Arch
@@ -50,6 +52,12 @@ def locBits (a : Arch) : Nat :=
   | .vn => a.l
   | .hy => if a.o > a.l then a.o else a.l
 
+/-- `Arch.Shared_num` -/
+def sharedNum (a : Arch) (kind : String) : Nat := (a.shared.lookup kind).getD 0
+
+/-- `Arch.Shared_bits`: 0 without an object of the kind, else the least width ≥ 1 that numbers them -/
+def sharedBits (a : Arch) (kind : String) : Nat := neededBits (a.sharedNum kind)
+
 def width (a : Arch) : FieldKind → Nat
   | .reg => a.r
   | .inp => a.inBits
@@ -60,6 +68,7 @@ def width (a : Arch) : FieldKind → Nat
   | .loc => a.locBits
   | .locO => if a.mode = .vn then a.o else a.locBits
   | .const w => w
+  | .so kind _ => a.sharedBits kind
 
 end Arch
 
@@ -106,6 +115,12 @@ def layout (op : String) : Option (List FieldKind) :=
   else if op = "rset" then some [.reg, .imm]
   else if op = "r2v" then some [.reg, .const 8]
   else if op = "tsp" then some [.reg, .loc, .const 8]
+  else if op = "k2r" then some [.reg, .so "kbd" "k"]
+  else if op ∈ ["q2r", "r2q"] then some [.reg, .so "queue" "q"]
+  else if op ∈ ["r2t", "t2r"] then some [.reg, .so "stack" "st"]
+  else if op ∈ ["r2u", "u2r"] then some [.reg, .so "uart" "u"]
+  else if op = "lfsr82r" then some [.reg, .so "lfsr8" "lfsr8"]
+  else if op ∈ ["wrd", "wwr"] then some [.reg, .so "channel" "ch"]
   else dynLayout op
 
 /-- the fields `Op_get_instruction_len` *declares*; differs from `layout` only for `m2rri`, whose
